@@ -1,7 +1,8 @@
 (* Model of the signalling (JSEP) state machine of aiortc.RTCPeerConnection
    (src/aiortc/rtcpeerconnection.py): createOffer 636-644, createAnswer 548-560,
-   setLocalDescription 782-826 + 870-875, setRemoteDescription 877-895 + 995-1001 +
-   1059-1070, close 513-521, __assertNotClosed 1109-1111, __localDescription /
+   setLocalDescription (check state / implicit description / validate / update signaling state /
+   replace description), setRemoteDescription (validate / set DTLS role / late closed check /
+   update signaling state / replace description), close, __assertNotClosed 1109-1111, __localDescription /
    __remoteDescription 1216-1217 / 1233-1234, __setSignalingState 1266-1268,
    __validate_description 1347-1416.
 
@@ -212,15 +213,19 @@ Definition set_local (s : st) (arg : option desc) (created : desc) : result :=
         end
     end.
 
-(* setRemoteDescription(sessionDescription): no __assertNotClosed.  Between validation and
-   the state update the only modelled failure is `media.dtls.role` on a missing dtls
-   (lines 996-1001); the signalling state and the slots are written at the very end. *)
+(* setRemoteDescription(sessionDescription): no __assertNotClosed on entry.  Between validation
+   and the state update the modelled failures are `media.dtls.role` on a missing dtls (set DTLS
+   role, inside the media loop) and the __assertNotClosed that follows the awaits ("the connection
+   may have been closed while we were waiting"); the signalling state and the slots are written at
+   the very end.  (setLocalDescription has the same late __assertNotClosed after gathering; with
+   calls made one after the other it cannot fire there, because the call starts with the same test.) *)
 Definition set_remote (s : st) (d : desc) : result :=
   match validate s d false with
   | Done =>
       if (dtype_eqb (d_type d) TOffer || dtype_eqb (d_type d) TAnswer)
          && existsb (fun m => match m_dtls m with None => true | Some _ => false end) (d_media d)
       then fail s Crash
+      else if is_closed s then fail s InvalidState      (* __assertNotClosed after the awaits *)
       else
         let '(sg, ev) := state_update set_remote_state_updates (d_type d) (sig s) in
         if dtype_eqb (d_type d) TAnswer
